@@ -63,3 +63,16 @@ Fixpoint units_ordered (units : list unitd) : Prop :=
 Definition wf_layout (units : list unitd) : Prop :=
   units_ordered units /\
   forall u e par, occurs units u e par -> die_inside u e.
+
+(* The four closure clauses of the property for a set T of DIE offsets: T contains the required DIEs, the
+   parent of each of its DIEs, every DIE referenced (as seen by `rf`) from one of its DIEs, and the
+   member-like children of each of its non-namespace DIEs. *)
+Definition dependency_closed (rf : unitd -> site -> list N) (req : N -> bool) (units : list unitd)
+           (T : N -> Prop) : Prop :=
+  (forall x, f_valid units x -> req x = true -> T x) /\
+  (forall u e pe, occurs units u e (Some pe) -> T (sec u (e_off e)) -> T (sec u (e_off pe))) /\
+  (forall u e par s y, occurs units u e par -> In s (e_sites e) -> In y (rf u s) ->
+                       f_valid units y -> T (sec u (e_off e)) -> T y) /\
+  (forall u e pe, occurs units u e (Some pe) -> e_tag pe <> DW_TAG_namespace ->
+                  has_die_back_edge (e_tag e) (e_decl e) = true ->
+                  T (sec u (e_off pe)) -> T (sec u (e_off e))).
